@@ -218,35 +218,35 @@ Theorem rejected_set_leaves_file q ex f k t :
   o_rc (step q ex f (CSet k t)) <> 0 -> o_file (step q ex f (CSet k t)) = f.
 Proof.
   unfold step. destruct (load ex f) as [conf|]; [|reflexivity].
-  destruct (valid (upd (ckey q k) (convert t) conf)); [cbn [o_rc]; congruence|reflexivity].
+  destruct (valid (upd (ckey_set q k) (convert t) conf)); [cbn [o_rc]; congruence|reflexivity].
 Qed.
 
 Theorem get_leaves_file q ex f k : o_file (step q ex f (CGet k)) = f.
-Proof. unfold step. destruct (load ex f) as [conf|]; [|reflexivity]. now destruct (lookup (ckey q k) conf). Qed.
+Proof. unfold step. destruct (load ex f) as [conf|]; [|reflexivity]. now destruct (lookup (ckey_get q k) conf). Qed.
 
 Theorem accepted_set_writes_valid q ex f k t :
   o_rc (step q ex f (CSet k t)) = 0 ->
-  exists c, o_file (step q ex f (CSet k t)) = Some c /\ valid c = true /\ lookup (ckey q k) c = Some (convert t).
+  exists c, o_file (step q ex f (CSet k t)) = Some c /\ valid c = true /\ lookup (ckey_set q k) c = Some (convert t).
 Proof.
   unfold step. destruct (load ex f) as [conf|]; [|cbn [o_rc]; intro H; now destruct exit_codes as (E & _)].
-  destruct (valid (upd (ckey q k) (convert t) conf)) eqn:Hv; [|cbn [o_rc]; intro H; now destruct exit_codes as (_ & E & _)].
+  destruct (valid (upd (ckey_set q k) (convert t) conf)) eqn:Hv; [|cbn [o_rc]; intro H; now destruct exit_codes as (_ & E & _)].
   intros _. eexists. split; [reflexivity|]. split; [exact Hv|]. now rewrite lookup_upd, String.eqb_refl.
 Qed.
 
-(* with normalised keys the written file is again loadable and gives the value back *)
-Definition plain_key (k : string) : bool := String.eqb (norm k) k.
-Definition key_cond (q : cquirks) (k : string) : Prop := q_cli_raw_key q = false \/ plain_key k = true.
+(* the repaired commands normalise the key like the loader does (read from the source): whatever the vector, the key used is
+   the normalised one; the written file is again loadable and gives the value back *)
+Lemma ckey_set_norm q k : ckey_set q k = norm k.
+Proof. unfold ckey_set. now destruct (q_cli_raw_key q). Qed.
+Lemma ckey_get_norm q k : ckey_get q k = norm k.
+Proof. unfold ckey_get. now destruct (q_cli_raw_key q). Qed.
 
-Lemma ckey_norm q k : key_cond q k -> ckey q k = norm k.
-Proof. unfold ckey. intros [->|H]; [reflexivity|]. apply String.eqb_eq in H. destruct (q_cli_raw_key q); congruence. Qed.
-
-Theorem accepted_set_reloads q ex f k t : key_cond q k ->
+Theorem accepted_set_reloads q ex f k t :
   o_rc (step q ex f (CSet k t)) = 0 ->
   exists c c', o_file (step q ex f (CSet k t)) = Some c /\ load ex (Some c) = Some c' /\ valid c' = true
                /\ lookup (norm k) c' = Some (convert t).
 Proof.
-  intros Hk. unfold step. destruct (load ex f) as [conf|] eqn:Hl; [|cbn [o_rc]; intro H; now destruct exit_codes as (E & _)].
-  rewrite (ckey_norm q k Hk).
+  unfold step. destruct (load ex f) as [conf|] eqn:Hl; [|cbn [o_rc]; intro H; now destruct exit_codes as (E & _)].
+  rewrite (ckey_set_norm q k).
   destruct (valid (upd (norm k) (convert t) conf)) eqn:Hv; [|cbn [o_rc]; intro H; now destruct exit_codes as (_ & E & _)].
   intros _. cbn [o_file].
   assert (Hkept : kept (upd (norm k) (convert t) conf)) by (apply kept_upd; [now apply (load_is_kept ex f)|apply norm_idem]).
@@ -256,13 +256,13 @@ Proof.
   - now rewrite H3, lookup_upd, String.eqb_refl.
 Qed.
 
-Theorem set_then_get q ex f k t : key_cond q k ->
+Theorem set_then_get q ex f k t :
   o_rc (step q ex f (CSet k t)) = 0 ->
   let f' := o_file (step q ex f (CSet k t)) in
   step q ex f' (CGet k) = Build_obs 0 (Some (show (convert t))) f'.
 Proof.
-  intros Hk Hrc. destruct (accepted_set_reloads q ex f k t Hk Hrc) as (c & c' & H1 & H2 & _ & H4).
-  cbv zeta. rewrite H1. unfold step. rewrite H2, (ckey_norm q k Hk), H4. reflexivity.
+  intros Hrc. destruct (accepted_set_reloads q ex f k t Hrc) as (c & c' & H1 & H2 & _ & H4).
+  cbv zeta. rewrite H1. unfold step. rewrite H2, (ckey_get_norm q k), H4. reflexivity.
 Qed.
 
 (* ------------------------------------------------------------------ histories *)
@@ -285,9 +285,6 @@ Proof.
   cbn [list_eqb fst snd]. now rewrite String.eqb_refl, cval_eqb_refl, IH.
 Qed.
 
-Definition cmd_cond (q : cquirks) (c : cmd) : Prop :=
-  match c with CSet k _ => key_cond q k | CGet k => key_cond q k | CReset => True end.
-
 (* what the expectation list promises about the file *)
 Definition promises (ex : bool) (exp : list (string * string)) (f : option cfg) : Prop :=
   forall nk s, lookup nk exp = Some s -> forall conf, load ex f = Some conf -> exists v, lookup nk conf = Some v /\ show v = s.
@@ -298,12 +295,12 @@ Lemma exit_code_tests :
 Proof. repeat split; reflexivity. Qed.
 
 Theorem history_spec q ex : forall cs f exp,
-  Forall (cmd_cond q) cs -> promises ex exp f ->
+  promises ex exp f ->
   forallb (fun b => b) (spec_trace exp f cs (run q ex f cs)) = true.
 Proof.
   destruct exit_code_tests as (T1 & T2 & T3 & T4 & T5 & T6).
-  induction cs as [|c cr IH]; intros f exp Hc Hp; [reflexivity|].
-  inversion Hc as [|? ? Hc1 Hcr]; subst. cbn [run spec_trace].
+  induction cs as [|c cr IH]; intros f exp Hp; [reflexivity|].
+  cbn [run spec_trace].
   destruct (load ex f) as [conf|] eqn:Hl.
   2:{ (* the file cannot be loaded: every command stops with the load error and touches nothing *)
       assert (Ho : step q ex f c = Build_obs load_error_exit None f) by (unfold step; now rewrite Hl).
@@ -311,7 +308,7 @@ Proof.
   pose proof (load_is_kept ex f conf Hl) as Hkept.
   destruct c as [k t|k|].
   - (* set *)
-    cbn [cmd_cond] in Hc1. unfold step. rewrite Hl, (ckey_norm q k Hc1).
+    unfold step. rewrite Hl, (ckey_set_norm q k).
     remember (upd (norm k) (convert t) conf) as conf' eqn:Hconf'.
     destruct (valid conf') eqn:Hv.
     + cbn [o_rc o_file]. rewrite T1. cbn [Nat.eqb forallb].
@@ -321,14 +318,14 @@ Proof.
       { unfold stored_ok. rewrite <- valid_is_documented. rewrite (valid_ext _ conf') by (intro x; now apply reload_lookup).
         rewrite Hv. destruct Hk' as (N1 & N2 & N3). rewrite (normalize_fixed conf' N1 N2).
         rewrite Hconf', lookup_upd, String.eqb_refl. apply cval_eqb_refl. }
-      rewrite Hst. apply IH; [exact Hcr|].
+      rewrite Hst. apply IH.
       intros nk s Hs conf'' Hl''. destruct (load_kept ex conf' Hk' Hv) as (c2 & L1 & _ & L3).
       pose proof (eq_trans (eq_sym L1) Hl'') as Hc2. injection Hc2 as <-. rewrite L3, Hconf'. revert Hs. rewrite !lookup_upd.
       destruct (String.eqb (norm k) nk); intro Hs; [exists (convert t); split; [reflexivity|congruence]|].
       exact (Hp nk s Hs conf Hl).
     + cbn [o_rc o_file]. rewrite T2, T3. cbn [forallb]. rewrite file_eqb_refl. now apply IH.
   - (* get *)
-    cbn [cmd_cond] in Hc1. unfold step. rewrite Hl, (ckey_norm q k Hc1).
+    unfold step. rewrite Hl, (ckey_get_norm q k).
     destruct (lookup (norm k) conf) as [v|] eqn:Hlk.
     + cbn [o_rc o_file o_out]. rewrite T1. cbn [forallb]. rewrite file_eqb_refl. cbn [andb].
       destruct (lookup (norm k) exp) as [s|] eqn:Hexp.
@@ -340,20 +337,10 @@ Proof.
       * destruct (Hp _ _ Hexp conf Hl) as (v' & Hv' & _). congruence.
       * cbn [andb]. now apply IH.
   - (* reset *)
-    unfold step. rewrite Hl. cbn [o_rc o_file]. rewrite T1. cbn [forallb]. apply IH; [exact Hcr|].
+    unfold step. rewrite Hl. cbn [o_rc o_file]. rewrite T1. cbn [forallb]. apply IH.
     intros nk s Hs. discriminate Hs.
 Qed.
 
 Corollary history_spec_fresh q ex cs f :
-  Forall (cmd_cond q) cs -> forallb (fun b => b) (spec_trace [] f cs (run q ex f cs)) = true.
-Proof. intro H. apply history_spec; [exact H|]. intros nk s Hs. discriminate Hs. Qed.
-
-Lemma cmd_cond_flag_off q cs : q_cli_raw_key q = false -> Forall (cmd_cond q) cs.
-Proof. intro H. apply Forall_forall. intros [k t|k|] _; cbn [cmd_cond]; try exact I; now left. Qed.
-
-Definition cmd_plain (c : cmd) : bool := match c with CSet k _ => plain_key k | CGet k => plain_key k | CReset => true end.
-Lemma cmd_cond_plain q cs : forallb cmd_plain cs = true -> Forall (cmd_cond q) cs.
-Proof.
-  intro H. rewrite forallb_forall in H. apply Forall_forall. intros c Hc. specialize (H c Hc).
-  destruct c as [k t|k|]; cbn [cmd_cond cmd_plain] in *; try exact I; now right.
-Qed.
+  forallb (fun b => b) (spec_trace [] f cs (run q ex f cs)) = true.
+Proof. apply history_spec. intros nk s Hs. discriminate Hs. Qed.
